@@ -231,7 +231,7 @@ class Shadow:
         for l in b.get("db", []):
             t = l.split(" ")
             if t[0] == "dbrow":
-                self.dbdeps[int(t[1])] = [int(x.split(":")[0]) for x in t[7:] if x.split(":")[0].lstrip("-").isdigit()]
+                self.dbdeps[int(t[1])] = [int(x.split(":")[0]) for x in t[6:] if x.split(":")[0].lstrip("-").isdigit()]
         self.last_created = created
         return errs
 
